@@ -111,6 +111,16 @@ Theorem C14_never_lock_cancelled : forall s t q, reachable s -> quiescent s -> g
 Proof. exact e3_C14_never_lock_cancelled. Qed.
 Print Assumptions C14_never_lock_cancelled.
 
+(* transient store read failures (AResumeReadFail) are not part of the sequential driver either: [drive] never fails
+   a read, so a request submitted alone in a reachable quiescent state (whatever read failures happened before) never
+   answers [EStoreRead] / [ECompilationFailed]; C14_later_run / C14_frame_step cover read failures of OTHER requests
+   among the later actions ([avoids t (AResumeReadFail w)] is [w <> t]) *)
+Theorem C14_never_read_failed : forall s t q, reachable s -> quiescent s -> get_thread (threads s) t = None ->
+  exists th, get_thread (threads (submit s t q)) t = Some th /\
+             t_resp th <> Some (RErr EStoreRead) /\ t_resp th <> Some (RErr ECompilationFailed).
+Proof. exact e3_C14_never_read_failed. Qed.
+Print Assumptions C14_never_read_failed.
+
 (* ---- non-vacuity: after two transactions (the second with key 8 and reference 9), a preview of the revert of
    transaction 0 under key 5: reachable, quiescent, fresh id; the preview answers transaction id 2, so does the
    real revert; nothing observable changed ------------------------------------------------------------------------ *)
@@ -131,6 +141,28 @@ Proof.
   vm_compute in E. inversion E; subst s; clear E.
   split; [apply quiescent_b_sound; vm_compute; reflexivity|].
   vm_compute. repeat split.
+Qed.
+
+(* ---- non-vacuity of the extended [avoids]: after a preview (thread 7) on the empty ledger, a later concurrent run
+   in which the balance read of request 1 fails under its account locks ([AResumeReadFail 1]: [EStoreRead], locks
+   released, the queued request 2 granted and completed) is executable with and without the preview and ends in the
+   same observable state (an instance of C14_later_run) ------------------------------------------------------------ *)
+Definition c14_rf_acts : list action :=
+  (AStart 0%nat (mk_create 0 0 false [(0%N, 1%N, 100%Z)]) :: repeat (AResume 0%nat) 8 ++ APersistOk :: repeat (AResume 0%nat) 3) ++
+  [AStart 1%nat (mk_create 0 0 false [(1%N, 2%N, 100%Z)]); AStart 2%nat (mk_create 7 9 false [(1%N, 3%N, 100%Z)]);
+   AResume 1%nat] ++ repeat (AResume 2%nat) 5 ++ [AResumeReadFail 1%nat] ++
+  repeat (AResume 2%nat) 8 ++ APersistOk :: repeat (AResume 2%nat) 3.
+Example C14_later_read_failure_nonvacuous :
+  Forall (avoids 7%nat) c14_rf_acts /\
+  exists a b, run (submit init 7%nat (mk_create 0 0 true [(world, 5%N, 10%Z)])) c14_rf_acts = Some a /\
+    run init c14_rf_acts = Some b /\ observe a = observe b /\
+    option_map t_resp (get_thread (threads b) 1%nat) = Some (Some (RErr EStoreRead)) /\
+    option_map t_resp (get_thread (threads b) 2%nat) = Some (Some (ROk (Some 1%nat))) /\
+    length (persisted b) = 2%nat /\ quiescent b.
+Proof.
+  split.
+  - unfold c14_rf_acts. simpl. repeat (apply Forall_cons; [first [exact I | (let H := fresh in intro H; discriminate H)]|]). apply Forall_nil.
+  - eexists. eexists. repeat (split; [vm_compute; reflexivity|]). apply quiescent_b_sound. vm_compute. reflexivity.
 Qed.
 
 (* ---- before the repair 52579e0 ("a dry run must not consume a transaction id"): with the variant
